@@ -348,6 +348,19 @@ def wire_unambiguous(spec):
     return True
 
 
+def _has_break(spec, struct, depth=0):
+    if depth > 6:
+        return True
+    for ins in flatten_own(struct.body):
+        if ins.tag == "break":
+            return True
+        if ins.tag in ("field", "array") and ins.type is not None:
+            t = resolve_type(spec, ins.type, ins.length if ins.tag == "field" and is_str(ins.type) else None)
+            if t.kind == "struct" and _has_break(spec, t.struct, depth + 1):
+                return True
+    return False
+
+
 # ---------------------------------------------------------------- C01 domain, per class
 def c01_domain(spec, decl, ctx_chunked, top=True, _depth=0):
     """(in_domain, ends_unbounded, may_contain_0xFF) for one object entered in the given context.
@@ -413,6 +426,10 @@ def c01_domain(spec, decl, ctx_chunked, top=True, _depth=0):
             if ins.length is None:
                 if not ins.delimited and ue:
                     return False, True, True
+                if not ins.delimited and t.kind == "struct" and _has_break(spec, t.struct):
+                    # a read-to-end loop tests `remaining` of the CURRENT chunk: an element that starts with
+                    # an empty chunk (empty string then <break>) is indistinguishable from the end of the array
+                    return False, True, True
                 return True, True, ffe
             unb = bool(ins.optional)
             if ue and not (ins.delimited and ins.trailing):
@@ -475,3 +492,54 @@ def c01_domain(spec, decl, ctx_chunked, top=True, _depth=0):
                 state["tail"] = True
     walk(body, ctx_chunked)
     return state["ok"], state["tail"], state["ff_any"]
+
+
+def arrays_without_progress(spec, decl, ctx_chunked=False):
+    """the call sites of known finding C03/read-to-end-array-of-chunk-first-element: read-to-end arrays
+    (no length, not delimited) of `decl` that sit OUTSIDE a chunked section and whose element is a struct
+    that is not fixed-size, starts with an own chunked section and has no own <break>.  Entered in
+    unchunked mode such an element can consume nothing while data remains (its chunked section ends at a
+    break byte the enclosing loop does not see), so `while reader.remaining > 0` never ends"""
+    from .concrete import fixed_size
+    out = []
+
+    def chunk_first(st):
+        body = list(flatten_own(st.body))
+        return bool(body) and body[0].tag == "chunked" and not any(i.tag == "break" for i in body)
+
+    def run(body, ch):
+        for ins in body:
+            if ins.tag == "chunked":
+                run(ins.body, True)
+            elif ins.tag == "array" and ins.length is None and not ins.delimited and not ch:
+                t = resolve_type(spec, ins.type)
+                if t.kind == "struct" and fixed_size(spec, t) is None and chunk_first(t.struct):
+                    out.append({"array": ins.name, "element": ins.type})
+    run(decl.body, ctx_chunked)
+    return out
+
+
+def known_shape_sites(spec, top):
+    """arrays_without_progress for class `top` and its case-data classes (static context computed as the
+    generator's own: a case class inherits the chunked state of its switch)"""
+    from .concrete import case_class_name
+    decls = {o.name: o for o in all_objects(spec)}
+    out = []
+
+    def walk(decl, ctx):
+        for a in arrays_without_progress(spec, decl, ctx):
+            out.append(dict(a, **{"class": decl.name}))
+
+        def run(body, ch):
+            for ins in body:
+                if ins.tag == "chunked":
+                    run(ins.body, True)
+                elif ins.tag == "switch":
+                    for c in ins.cases:
+                        if c.body:
+                            walk(decls[case_class_name(decl.name, ins.field, c)], ch)
+        run(decl.body, ctx)
+    root = top.split(".")[0]
+    if root in decls:
+        walk(decls[root], False)
+    return [a for a in out if a["class"] == top or a["class"].startswith(top + ".") or top.startswith(a["class"] + ".")]
